@@ -142,3 +142,16 @@ Example map_login_example :
   map_login (mkConfig true false true true 15 90 T0) (str "Alice@Example.COM") = str "alice"
   /\ map_login (mkConfig false true false true 15 90 T0) (str "Alice@x") = str "ALICE@X".
 Proof. vm_compute. split; reflexivity. Qed.
+
+(* equal concatenations: "ab"/"c" (rejected) and "a"/"bc" (right) have the same digest but different keys in the
+   failed cache, so the right pair is not answered from the other one's entry *)
+Definition tblC : creds := [(str "a", str "bc", str "a"); (str "ab", str "zz", str "ab")].
+Definition hC : list (@event creds) := [Attempt (str "ab") (str "c"); Tick S9].
+Example concat_digests_equal : cache_digest (str "ab") (str "c") T0 = cache_digest (str "a") (str "bc") T0.
+Proof. reflexivity. Qed.
+Example concat_keys_differ : failed_key T0 (str "ab") (str "c") <> failed_key T0 (str "a") (str "bc").
+Proof. intros H. apply failed_key_inj in H as [H _]. discriminate. Qed.
+Example concat_not_confused :
+  let r := last_login Vfix cfg0 tblC hC (str "a") (str "bc") in
+  r_out r = ORet (str "a") false /\ r_called r = true.
+Proof. vm_compute. split; reflexivity. Qed.
